@@ -13,7 +13,7 @@ fn exec(sender: &str, c: &str, msg: Value, funds: Value) -> Value {
 pub fn templates(contract: &str, k: &str, cfg: &Cfg, rng: &mut Rng) -> Vec<Value> {
     let u1 = cfg.users[0].clone();
     let u2 = cfg.users[cfg.users.len() - 1].clone();
-    let addr = |rng: &mut Rng| -> String { rng.pick(&["", "", "owner2", "hub", "dispatcher", "registry", "bsei", "stsei", "reward", "usr1", "keeper"]).to_string() };
+    let addr = |rng: &mut Rng| -> String { rng.pick(&["", "", "", "owner2", "hub", "dispatcher", "registry", "reward", "usr1", "sink", "sink"]).to_string() };
     let dec_opt = |rng: &mut Rng| -> Value { if rng.chance(1, 3) { json!([]) } else { json!(*rng.pick(&DECS)) } };
     let v = 1 + rng.below(cfg.nv);
     match (contract, k) {
